@@ -546,6 +546,9 @@ func (p *Printer) rightParen(pos Pos) {
 	}
 	p.w.WriteByte(')')
 	p.wantSpace = spaceRequired
+	// Any separator written within the parentheses, like the & in "(foo &)",
+	// does not stand in for the one before what follows them.
+	p.wroteSemi = false
 }
 
 // closingParen prints a closing parenthesis at closePos, separating it from a
@@ -574,6 +577,9 @@ func (p *Printer) semiRsrv(s string, pos Pos) {
 	}
 	p.w.WriteString(s)
 	p.wantSpace = spaceRequired
+	// The separator before the reserved word, such as the & in "{ foo & }"
+	// or the ;; in "a) foo ;; esac", is not the one before what follows it.
+	p.wroteSemi = false
 }
 
 func (p *Printer) flushComments() {
@@ -1243,8 +1249,6 @@ func (p *Printer) command(cmd Command, redirs []*Redirect) (startRedirs int) {
 		p.wantNewline = p.wantNewline || p.funcNextLine
 		p.nestedStmts(cmd.Stmts, cmd.Last, cmd.Rbrace)
 		p.semiRsrv("}", cmd.Rbrace)
-		// An empty block left the flag set; see the CaseClause case.
-		p.wroteSemi = false
 	case *IfClause:
 		p.ifClause(cmd, false)
 	case *Subshell:
@@ -1416,9 +1420,6 @@ func (p *Printer) command(cmd Command, redirs []*Redirect) (startRedirs int) {
 			p.decLevel()
 		}
 		p.semiRsrv("esac", cmd.Esac)
-		// The ;; of the last item only stands in for the ; before esac,
-		// not for the one before a statement which follows on the same line.
-		p.wroteSemi = false
 	case *ArithmCmd:
 		p.w.WriteString("((")
 		if cmd.Unsigned {
